@@ -379,6 +379,73 @@ def stubborn_servers_run(ctx, bins, peer, max_servers, stats):
         ctx.add_violation("c05/too-many-servers/stubborn", "%d server processes were observed alive at the same moment with --max-servers %d" % (peak["n"], max_servers), w)
 
 
+def client_fault_run(ctx, bins, peer, rid, max_servers, after_answers, stats):
+    """The client under test exits in the middle of the run while several server batches are in flight and the
+    servers need different times to shut down (all well inside the grace period). The run is lost, but it still has
+    to stop - and wait for - every server it started before it ends. Decided on the event log (CLOCK_MONOTONIC,
+    the same clock the driver reads when the runner has exited) and by looking at /proc right after the exit."""
+    import time
+    d = os.path.join(ctx.W, "c05-cfault-%d" % rid)
+    os.makedirs(d, exist_ok=True)
+    confp = os.path.join(d, "conf.yaml")
+    open(confp, "w").write(CONFIGS["A"])
+    evp = os.path.join(d, "events.jsonl")
+    sel = e2e.model_selection(ctx, confp, "both", ["Basic/**"], ())
+    if not sel:
+        return
+    keys = sorted({key_of(i) for i in sel.values()})
+    # one instance leaves at once, the others take 1.2 s to drain
+    script = {"default": "canned", "probe": False, "seed": ctx.seed * 10 + rid, "mode": "logging", "stop_delay_ms": 1200,
+              "stop_delay_ms_for": {k: 20 for k in keys[rid % len(keys)::3]}, "exit_after_answers": after_answers, "exit_code": 1, "answer_delay_max_ms": 20}
+    args = ["-v", "--conf", confp, "--mode", "both", "--max-servers", str(max_servers), "--run", "Basic/**", "--", peer, "client", "----", peer, "server"]
+    env = {"VERIF_EVENTLOG": evp, "VERIF_PEER_SCRIPT": json.dumps(script)}
+    label = "c05-cfault-%d" % rid
+    rc, to, text = e2e.run_runner(ctx, bins, args, label, timeout=600, env=env, race_label=label)
+    t_exit = time.monotonic_ns()
+
+    def alive(pid):
+        try:
+            st = open("/proc/%d/stat" % pid).read()
+            return st.rsplit(")", 1)[1].split()[0] != "Z"
+        except OSError:
+            return False
+
+    evs0 = load_events(evp)
+    ready = {e["pid"]: e for e in evs0 if e["ev"] == "server_ready"}
+    alive_after = sorted(p for p in ready if alive(p))
+    time.sleep(2.0)  # let whatever is left behind finish writing its log
+    evs = load_events(evp)
+    for p in ready:
+        if alive(p):
+            try:
+                os.kill(p, 9)
+            except OSError:
+                pass
+    w = {"scenario": "helper client exits with status 1 after %d answers; --max-servers %d; helper servers exit 20 ms or 1200 ms after the stop request" % (after_answers, max_servers),
+         "argv": " ".join(args), "exit": rc, "servers_started": len(ready), "output_tail": text[-800:]}
+    if to:
+        ctx.add_violation("c05/not-terminating/client-fault", "the run did not terminate within the progress bound", w)
+        return
+    client_exit = [e for e in evs if e["ev"] == "client_exit"]
+    exits = {e["pid"]: e for e in evs if e["ev"] == "server_exit"}
+    asked = {e["pid"]: e for e in evs if e["ev"] == "server_stop_signal"}
+    slow_asked = [p for p in asked if script["stop_delay_ms_for"].get(ready.get(p, {}).get("key"), 1200) >= 1200]
+    if not client_exit or len(ready) < 2 or not slow_asked:
+        ctx.inconclusive.append("c05 client-fault %d: the scenario did not take place (client exit logged: %s, %d servers, %d slow ones asked to stop)" % (rid, bool(client_exit), len(ready), len(slow_asked)))
+        return
+    stats["client_fault_decided"] = stats.get("client_fault_decided", 0) + 1
+    stats.setdefault("client_fault", []).append({"max_servers": max_servers, "client_exits_after_answers": after_answers, "servers_started": len(ready), "asked_to_stop": len(asked), "slow_servers_asked": len(slow_asked), "runner_exit": rc})
+    never_asked = [p for p in ready if p not in asked and p not in exits]
+    late = sorted((exits[p]["t"] - t_exit) / 1e6 for p in exits if exits[p]["t"] > t_exit)
+    if alive_after or late or never_asked:
+        w["alive_right_after_runner_exit"] = alive_after
+        w["server_exits_after_runner_exit_ms"] = [round(x, 1) for x in late]
+        w["never_asked_to_stop"] = never_asked
+        ctx.add_violation("c05/server-outlives-the-run/client-fault", "the runner ended while %d of the %d server processes it had started were still alive (%d logged their exit after it, %d were never asked to stop)" % (max(len(alive_after), len(late), len(never_asked)), len(ready), len(late), len(never_asked)), w)
+    if rc == 0:
+        ctx.add_violation("c05/client-fault-run-succeeds", "the client exited with status 1 in the middle of the run, the runner exited with 0", w)
+
+
 def client_mode_bound_run(ctx, bins, peer, max_servers, stats):
     """Client mode has two kinds of in-process servers (reference and grpc-go). A slow helper client dials, at
     every request, every server address it has been told so far: never more than --max-servers may accept."""
@@ -422,6 +489,8 @@ def run(ctx, bins, peer, tier):
         stubborn_servers_run(ctx, bins, peer, ms_, stats)
     for ms_ in ((1,) if tier == "quick" else (1, 2, 3)):
         client_mode_bound_run(ctx, bins, peer, ms_, stats)
+    for j, (ms_, after) in enumerate([(2, 6), (3, 10)] if tier == "quick" else [(2, 6), (3, 10), (2, 3), (3, 20), (8, 12), (2, 25)]):
+        client_fault_run(ctx, bins, peer, j, ms_, after, stats)
     nruns = 18 if tier == "quick" else 150
     plans = []
     for i in range(nruns):
@@ -481,5 +550,7 @@ def run(ctx, bins, peer, tier):
     ctx.extra["not_exhaustive"] = True
     if stats.get("client_cert_dispatches_checked", 0) < 3:
         ctx.inconclusive.append("c05: fewer than 3 client-certificate permutations were dispatched and checked (%d)" % stats.get("client_cert_dispatches_checked", 0))
+    if stats.get("client_fault_decided", 0) < 1:
+        ctx.inconclusive.append("c05: no client-fault scenario took place")
     if stats.get("server_leaves_decided", 0) < 1:
         ctx.inconclusive.append("c05: no server-leaves scenario was decidable")
